@@ -888,12 +888,14 @@ def ktable_candidates(c, samples, kind):
     n = len(samples)
     out = []
     complete = True
+    ktable_candidates.had_groups = False
     for fi, f in enumerate(c["feats"]):
         if f[0] == "F":
             continue
         groups, miss = label_groups(f, samples, rs)
         if not groups:
             continue
+        ktable_candidates.had_groups = True
         labs = sorted(groups)            # single-label features: the hash of a label is the label
         zmiss = sse_zero(miss)
         if kind == "kbest":
@@ -1155,12 +1157,15 @@ def oracle(aug, res):
             # k-split: the greedy agglomeration sequence), and the fitted rows / partition are the family member's when it is unique
             kc, complete = ktable_candidates(c, samples, kind)
             kc.sort(key=lambda x: x[0])
-            if not kc:
+            if not kc and not ktable_candidates.had_groups:
                 return fail("ktable-fit", f"{kind}: a fit is reported although the family is empty on these samples")
-            if complete and not score_close(kc[0][0], score, len(samples), scale2 if rss_crit else 0.0):
+            # (no candidate with a finite criterion: AICc is undefined for n - k - 1 <= 0, e.g. 4 samples and 2 outputs - the code
+            # then compares +inf / negative-denominator values; the criteria other than the RSS are outside the statement. This case
+            # was first reported as 'the family is empty': a false alarm at VERIF_SEED 23, 26, 45, 46)
+            if kc and complete and not score_close(kc[0][0], score, len(samples), scale2 if rss_crit else 0.0):
                 return fail("ktable-fit", f"{kind}: reported score {score!r} (feature {feat}, {nrows} rows), the minimum over the family is "
                                           f"{kc[0][0]!r} (feature {kc[0][2]}, {kc[0][3]} rows)", ukey)
-            clear = len(kc) == 1 or kc[1][0] - kc[0][0] > 1e-6 * max(1.0, abs(kc[0][0]))
+            clear = bool(kc) and (len(kc) == 1 or kc[1][0] - kc[0][0] > 1e-6 * max(1.0, abs(kc[0][0])))
             if clear and complete and ukey is None and kc[0][4] is not None:
                 _, _, bf, brows, bpart = kc[0]
                 if bf != feat[0] or brows != nrows:
